@@ -21,6 +21,7 @@ No Mathlib.
 -/
 import OdmlModel.Py.Str
 import OdmlModel.Generated.MiscTables
+import OdmlModel.Generated.ValidationTables
 
 namespace FS
 
@@ -287,6 +288,39 @@ def wouldWrite {Doc} (env : Env Doc) (b : Backend) (rdfFormat : Option (List Cha
            | _ => toStr env b rdfFormat d) with
     | .error _ => none
     | .ok text => if env.canOpen p then some (text, warned) else none
+
+/-! ### The rank of an issue by the rule it comes from
+
+`Validation(doc).errors` is the concatenation of what the registered rules yield; whether an issue
+is an error or a warning is fixed by the rule. The table is regenerated on every run from the
+source of each rule registered in `Validation._handlers` (the rank labels the rule mentions;
+`ValidationError(obj, msg)` without a rank is an error). -/
+
+/-- Every rule name registered for a Document, a Section or a Property. -/
+def registeredRules : List String := Gen.Validation.handlers.flatMap (·.2)
+
+/-- The rules that detect the ways of being invalid the property names: an attribute the format
+    requires is missing (Section type, Section / Property name), duplicate ids, sibling Sections
+    of one name and type, sibling Properties of one name. -/
+def blockingRules : List String :=
+  ["object_required_attributes", "document_unique_ids", "section_unique_name_type",
+   "property_unique_names"]
+
+/-- The rank a rule gives its issues, where its source decides it: `warning` when the only label
+    it mentions is LABEL_WARNING, `error` when it does not mention LABEL_WARNING at all (explicit
+    LABEL_ERROR, the default of `ValidationError`, or delegation to such a rule), undecided when
+    it mentions both or is not registered. -/
+def ruleRank (r : String) : Option Rank :=
+  match Gen.Validation.ranks.find? (fun e => e.1 == r) with
+  | none => none
+  | some (_, labels) =>
+    if labels.contains "LABEL_WARNING" then
+      (if labels.contains "LABEL_ERROR" then none else some .warning)
+    else some .error
+
+/-- The ranks of a list of issues given by the rule each comes from (an undecided rule counts as
+    an error: nothing is promised for it). -/
+def ranksOf (rules : List String) : List Rank := rules.map (fun r => (ruleRank r).getD .error)
 
 /-! ### Histories of saves -/
 
